@@ -75,6 +75,16 @@ fn so3_lattice(rng: &mut Lcg) -> Vec<SO3State> {
     let mut v = vec![SO3State::identity(), SO3State::new(0.0, 0.0, 0.0, -1.0), SO3State::new(1.0, 0.0, 0.0, 0.0), SO3State::new(0.0, 1.0, 0.0, 0.0), SO3State::new(0.0, 0.0, 1.0, 0.0),
                      SO3State::new(-1.0, 0.0, 0.0, 0.0), SO3State::new(h, 0.0, 0.0, h), SO3State::new(-h, 0.0, 0.0, -h), SO3State::new(0.0, h, 0.0, -h), SO3State::new(0.5, 0.5, 0.5, 0.5),
                      SO3State::new(-0.5, -0.5, -0.5, -0.5), unit_q(1.0e-4, 0.0, 0.0, 1.0), unit_q(0.0, 1.0e-8, 0.0, 1.0), unit_q(0.01, 0.02, -0.01, 1.0), unit_q(0.0316, 0.0, 0.0, 1.0)];
+    // rotations 0.05 .. 0.25 rad away from the identity and from a generic rotation (around the SLERP / NLERP switch at dot = 0.9995, i.e. 0.063 rad)
+    for (k, ang) in [0.05f64, 0.07, 0.1, 0.15, 0.19, 0.25].iter().enumerate() {
+        let (s, c) = ((ang / 2.0).sin(), (ang / 2.0).cos());
+        let ax = [(1.0, 0.0, 0.0), (0.0, 1.0, 0.0), (0.6, 0.0, 0.8)][k % 3];
+        v.push(SO3State::new(ax.0 * s, ax.1 * s, ax.2 * s, c));
+        // the same rotation composed with the base (0.5, 0.5, 0.5, 0.5): q = base * r
+        let (bx, by, bz, bw) = (0.5, 0.5, 0.5, 0.5);
+        let (rx, ry, rz, rw) = (ax.0 * s, ax.1 * s, ax.2 * s, c);
+        v.push(unit_q(bw * rx + bx * rw + by * rz - bz * ry, bw * ry - bx * rz + by * rw + bz * rx, bw * rz + bx * ry - by * rx + bz * rw, bw * rw - bx * rx - by * ry - bz * rz));
+    }
     for _ in 0..8 { v.push(unit_q(rng.range(-1.0, 1.0), rng.range(-1.0, 1.0), rng.range(-1.0, 1.0), rng.range(-1.0, 1.0) + 1.0e-3)); }
     v
 }
@@ -180,7 +190,7 @@ fn so2_kit<'a>(sp: &'a SO2StateSpace, g: &mut Lcg, label: &str) -> Kit<'a, SO2St
 fn so3_kit<'a>(sp: &'a SO3StateSpace, g: &mut Lcg, label: &str) -> Kit<'a, SO3StateSpace> {
     Kit { name: format!("SO3{}", label), sp, states: so3_lattice(g), refd: Box::new(ref_so3), diam: Some(PI),
           canonical: Box::new(|s| ((s.x * s.x + s.y * s.y + s.z * s.z + s.w * s.w).sqrt() - 1.0).abs() < 1.0e-9),
-          show: Box::new(|s| format!("({:?},{:?},{:?},{:?})", s.x, s.y, s.z, s.w)), speed_tol: 2.0e-4, excess: Box::new(move |s| (sp.distance(&sp.bounds.0, s) - sp.bounds.1).max(0.0)) }
+          show: Box::new(|s| format!("({:?},{:?},{:?},{:?})", s.x, s.y, s.z, s.w)), speed_tol: 1.0e-5, excess: Box::new(move |s| (sp.distance(&sp.bounds.0, s) - sp.bounds.1).max(0.0)) }
 }
 
 pub fn fam_metric(o: &mut Rep, seed: u64) {
@@ -202,7 +212,9 @@ pub fn fam_metric(o: &mut Rep, seed: u64) {
 pub fn fam_interp(o: &mut Rep, seed: u64) {
     let mut g = Lcg(seed.wrapping_add(29));
     for dim in [1usize, 2, 3, 5] { let sp = RealVectorStateSpace::new(dim, None).unwrap(); interp(o, seed, &rv_kit(&sp, &mut g, "")); }
+    for dim in [1usize, 2, 3] { let sp = RealVectorStateSpace::new(dim, Some(vec![(-2.0, 2.0); dim])).unwrap(); interp(o, seed, &rv_kit(&sp, &mut g, " bounded (-2,2)")); }
     let sp = SO2StateSpace::new(None).unwrap(); interp(o, seed, &so2_kit(&sp, &mut g, ""));
+    let sp = SO2StateSpace::new(Some((-1.0, 2.0))).unwrap(); interp(o, seed, &so2_kit(&sp, &mut g, " bounded (-1,2)"));
     let sp = SO3StateSpace::new(None).unwrap(); interp(o, seed, &so3_kit(&sp, &mut g, ""));
     compound_kits(o, seed, false);
 }
@@ -515,7 +527,7 @@ fn compound_kits(o: &mut Rep, seed: u64, metric_mode: bool) {
         let kit = Kit { name: format!("compound {:?} weights {:?}", lay, w), sp: &sp, states,
             refd: Box::new(move |a: &CompoundState, b: &CompoundState| (0..lay2.len()).map(|i| (comp_ref(lay2[i], &*a.components[i], &*b.components[i]) * w2[i]).powi(2)).sum::<f64>().sqrt()),
             diam: None, canonical: Box::new(move |a: &CompoundState| (0..lay3.len()).all(|i| comp_canonical(lay3[i], &*a.components[i]))),
-            show: Box::new(|a: &CompoundState| format!("{:?}", a.components)), speed_tol: if has_so3 { 2.0e-4 } else { 0.0 }, excess: Box::new(|_| 0.0) };
+            show: Box::new(|a: &CompoundState| format!("{:?}", a.components)), speed_tol: if has_so3 { 1.0e-5 } else { 0.0 }, excess: Box::new(|_| 0.0) };
         if metric_mode { metric(o, seed, &kit); } else { interp(o, seed, &kit); }
     }
 }
